@@ -81,7 +81,7 @@ denseonlinegen-check: coq
 	PYTHONDONTWRITEBYTECODE=1 PYTHONPATH=$(REPO) /venv/bin/python harness/denseonlinegen_check.py build/DenseOnlineGenCases.v
 	cd coq && timeout 1800 coqc -Q theories RV ../build/DenseOnlineGenCases.v
 
-# 8 semantic mutations + 3 harmless rewrites of scratch copies of the class files: translator verdict / first lemma that fails
+# 24 semantic mutations + 8 harmless rewrites + 8 fail-closed probes on scratch copies of the class files: translator verdict / first lemma that fails
 denseonlinegen-mutants: coq
 	python3 tools/denseonlinegen_mutants.py
 
